@@ -95,7 +95,60 @@ class OrderFacts:
             return self._refine_expr(n.ast, lab, st)
         return st
 
+    # ---- collections of trials: ('PAIRS', L) every element of the list L is a pair (s, a) with a the objective value
+    # returned for step s; ('DHPAIRS', B) every element of B is such a pair with a < start value
+    def _collections(self, n: Node, st):
+        from ..flow import node_exprs
+        held = [f for f in st if f[0] in ("PAIRS", "DHPAIRS")]
+        if not held:
+            return st
+        out = set(st)
+        exprs = node_exprs(n)
+        parents = {id(c): p for e in exprs for p in ast.walk(e) for c in ast.iter_child_nodes(p)}
+        for f in held:
+            L = f[1]
+            for e in exprs:
+                for x in ast.walk(e):
+                    if not (isinstance(x, ast.Name) and x.id == L and isinstance(x.ctx, ast.Load)):
+                        continue
+                    p = parents.get(id(x))
+                    ok = False
+                    if p is None or (isinstance(p, ast.UnaryOp) and isinstance(p.op, ast.Not)):
+                        ok = True                                   # truth test
+                    elif isinstance(p, ast.comprehension) and p.iter is x:
+                        ok = True                                   # read by a comprehension
+                    elif isinstance(p, ast.Call) and isinstance(p.func, ast.Name) and p.func.id in ("min", "max", "len", "bool", "sorted") and p.args and p.args[0] is x:
+                        ok = True
+                    elif isinstance(p, ast.Subscript) and p.value is x and isinstance(p.ctx, ast.Load):
+                        ok = True
+                    elif isinstance(p, ast.Attribute) and p.attr == "append" and f[0] == "PAIRS":
+                        c = parents.get(id(p))
+                        if isinstance(c, ast.Call) and c.func is p and len(c.args) == 1 and isinstance(c.args[0], ast.Tuple) and len(c.args[0].elts) == 2 \
+                                and all(isinstance(z, ast.Name) for z in c.args[0].elts):
+                            s_, a_ = c.args[0].elts[0].id, c.args[0].elts[1].id
+                            ok = ("EVAL", a_, s_) in st
+                    if not ok:
+                        out.discard(f)
+        return frozenset(out)
+
+    def _elements_below(self, v: ast.expr, st) -> bool:
+        """[t for t in L if t[1] < X] with PAIRS(L) and X <= start"""
+        if not (isinstance(v, ast.ListComp) and len(v.generators) == 1 and isinstance(v.elt, ast.Name)):
+            return False
+        g = v.generators[0]
+        if not (isinstance(g.target, ast.Name) and g.target.id == v.elt.id and isinstance(g.iter, ast.Name) and ("PAIRS", g.iter.id) in st and len(g.ifs) >= 1):
+            return False
+        t = g.target.id
+        for c in g.ifs:
+            if isinstance(c, ast.Compare) and len(c.ops) == 1:
+                a, b, op = c.left, c.comparators[0], type(c.ops[0])
+                small, big = (a, b) if op is ast.Lt else (b, a) if op is ast.Gt else (None, None)
+                if small is not None and isinstance(small, ast.Subscript) and src(small.value) == t and src(small.slice) == "1" and self.le(big, st):
+                    return True
+        return False
+
     def _transfer(self, n: Node, st):
+        st = self._collections(n, st)
         defs = node_defs(n)
         if not defs:
             return st
@@ -121,6 +174,21 @@ class OrderFacts:
                     if s is not None and s not in killed:
                         out.add(("EVAL", k, s))
                 continue
+            if isinstance(v, ast.List) and not v.elts:
+                out.add(("PAIRS", k))
+                continue
+            if self._elements_below(v, st):
+                out.add(("DHPAIRS", k))
+                continue
+            pick = v.value if isinstance(v, ast.Subscript) and src(v.slice) == "0" else v
+            if isinstance(pick, ast.Call) and isinstance(pick.func, ast.Name) and pick.func.id in ("min", "max") and len(pick.args) == 1 \
+                    and isinstance(pick.args[0], ast.Name) and ("DHPAIRS", pick.args[0].id) in st:
+                # any element of such a list is a pair whose step is strictly downhill: its first component
+                tg = s_ast.targets[0] if isinstance(s_ast, ast.Assign) else getattr(s_ast, "target", None)
+                first = isinstance(tg, ast.Tuple) and len(tg.elts) == 2 and isinstance(tg.elts[0], ast.Name) and tg.elts[0].id == k and pick is v
+                if first or (pick is not v and isinstance(tg, ast.Name)):
+                    out.add(("DH", k))
+                continue
             vv = _unwrap_scalar(v)
             if isinstance(vv, ast.Name):
                 if ("LT", vv.id) in st:
@@ -131,6 +199,9 @@ class OrderFacts:
                 for f in st:
                     if f[0] == "EVAL" and f[1] == vv.id and f[2] not in killed:
                         out.add(("EVAL", k, f[2]))
+                    # a copy of the step: the value was also evaluated "at k"
+                    if f[0] == "EVAL" and f[2] == vv.id and f[1] not in killed:
+                        out.add(("EVAL", f[1], k))
             if self.dh_value(v, st):
                 out.add(("DH", k))
         return frozenset(out)
@@ -344,8 +415,19 @@ def rule_lsproto(ctx: Ctx) -> List[Ob]:
     obs.append(ob("LSPROTO", "the task string returned by dcsrch is the one handed back to it", f, it, ok,
                   f"task in: {a_task}, task out: {r_task}", construct="_iterate(.., task) -> (.., task)"))
 
-    def loop_defs(name):
-        return [(d, v) for d, v, how in rd.value_exprs(n_it, name) if d is not cfg.entry and cfg.in_loop(d, lp)]
+    def loop_defs(name, at=None, depth=0):
+        out = []
+        for d, v, how in rd.value_exprs(at or n_it, name):
+            if d is cfg.entry or not cfg.in_loop(d, lp):
+                continue
+            if isinstance(v, ast.Name) and how == "bind" and depth < 4 and v.id not in RSTP:
+                # a copy (`trial_f = f_new`): the definitions of the copied name that reach the copy
+                inner = loop_defs(v.id, d, depth + 1)
+                if inner:
+                    out += inner
+                    continue
+            out.append((d, v))
+        return out
     # the step fed back is the step returned
     ds = loop_defs(a_stp)
     ok = len(ds) == 1 and ds[0][1] is not None and src(ds[0][1]) in RSTP
